@@ -13,7 +13,8 @@ EXPLANATION = (
     "store (row over the reactant LIST, '- k[rl]*prod(y[IDX_r] for r in reactants)') and one gain store (row over "
     "the product list, '+' the identical monomial), unconditional; R4 y/lhs/fex bind rows to IDX_<alias> over the "
     "same species list; R5 no other writer of rhs; R6 reactant/product lists are built through _create_species "
-    "with a None filter and _create_species rejects pseudo-elements; R7 heating '+', cooling '-', wrapped once by "
+    "with a None filter (a comprehension filter or a guarded append loop), _create_species rejects pseudo-elements and every Species is truthy "
+    "(no __bool__/__len__), so the filter drops None only; R7 heating '+', cooling '-', wrapped once by "
     "(gamma-1)*(..)/kerg/npar into row n_spec, IDX_TGAS = NSPECIES; R8 each back-end RHS function pastes ode.fex "
     "through whitespace-only filters exactly once. Decides the shape of the generator, not values.")
 ASSUMPTIONS = [
@@ -78,11 +79,17 @@ def check(ctx):
         ctx.missing("R1", "rhs-init", (FILE, m.func.lineno), f"expected one initialisation of rhs, found {len(inits)}")
     else:
         v = simp(inits[0].fact.value)
-        b = match(("binop", "Mult", ("list", (("const", "0.0"),)), V("n")), v) or \
-            match(("binop", "Mult", V("n"), ("list", (("const", "0.0"),))), v)
-        ctx.check(bool(b) and m.is_n_eqns(b["n"]), "R1", "rhs-init", where(inits[0]),
-                  "rhs = ['0.0'] * n_eqns with n_eqns = max(n_spec + has_thermal, 1)",
-                  expected="['0.0'] * max(len(species) + has_thermal, 1)", found=show(v))
+        # n copies of one constant: [c] * n, n * [c], [c for _ in range(n)]
+        b = match(("binop", "Mult", ("list", (V("c"),)), V("n")), v) or match(("binop", "Mult", V("n"), ("list", (V("c"),))), v)
+        if not b and v[0] == "comp" and v[1] == "list" and len(v[3]) == 1 and not v[3][0][2] and v[2][0] == "const":
+            r = match(("call", ("global", "range"), (V("n"),), ()), v[3][0][1])
+            b = {"c": v[2], "n": r["n"]} if r else None
+        if not b or b["c"][0] != "const":
+            ctx.unrec("R1", "rhs-init", where(inits[0]), f"rhs is not created as n copies of a constant: {show(v)[:120]}")
+        else:
+            ctx.check(b["c"] == ("const", "0.0") and m.is_n_eqns(b["n"]), "R1", "rhs-init", where(inits[0]),
+                      "rhs = ['0.0'] * n_eqns with n_eqns = max(n_spec + has_thermal, 1)",
+                      expected="['0.0'] * max(len(species) + has_thermal, 1)", found=show(v))
 
     reaction_sites(ctx, m)
 
@@ -168,65 +175,103 @@ def reaction_sites(ctx, m, r_loss="R2", r_gain="R3"):
 
 
 
+def _list_with_tail(v):
+    """A list value that is a base list L, plus one constant element when a condition holds, however spelled:
+    `L; if c: L.append(x)`  |  `L + ([x] if c else [])`  |  `(L + [x]) if c else L`.   -> (L, cond, x) | (v, None, None)"""
+    v = simp(v)
+
+    def plus_one(a):
+        if a[0] == "appended":
+            return a[1], a[2]
+        if a[0] == "binop" and a[1] == "Add" and a[3][0] == "list" and len(a[3][1]) == 1:
+            return a[2], a[3][1][0]
+        return None
+    if v[0] in ("phi", "ifexp"):
+        a = plus_one(v[2])
+        if a and a[0] == v[3]:
+            return v[3], v[1], a[1]
+    if v[0] == "binop" and v[1] == "Add" and v[3][0] == "ifexp" and v[3][3] == ("list", ()) and v[3][2][0] == "list" and len(v[3][2][1]) == 1:
+        return v[2], v[3][1], v[3][2][1][0]
+    return v, None, None
+
+
+def _paired_rows(fv):
+    """fex as (element expression in terms of ("L",) / ("R",), left list, right list): `[.. for l, r in zip(A, B)]` or
+    `[.. A[i] .. B[i] .. for i in range(..)]`; None when the shape is not one of these"""
+    from ..valueflow import subst
+    if not (fv and fv[0] == "comp" and len(fv[3]) == 1):
+        return None
+    tg, it, ifs = fv[3][0]
+    if ifs:
+        return None
+    b = match(("call", ("global", "zip"), (V("a"), V("b")), ()), it)
+    if b and tg[0] == "tuple" and len(tg[1]) == 2:
+        return simp(subst(fv[2], {tg[1][0]: ("L",), tg[1][1]: ("R",)})), b["a"], b["b"]
+    if it[0] == "call" and it[1] == ("global", "range") and len(it[2]) == 1 and tg[0] == "bv":
+        subs = {x for x in _subterms(fv[2]) if isinstance(x, tuple) and len(x) == 3 and x[0] == "sub" and x[2] == tg}
+        bases = sorted({x[1] for x in subs}, key=str)
+        if len(bases) == 2:
+            for a, b_ in (bases, bases[::-1]):
+                e = simp(subst(fv[2], {("sub", a, tg): ("L",), ("sub", b_, tg): ("R",)}))
+                if not any(x == tg for x in _subterms(e)) and e[0] == "fstr" and e[1] and e[1][0][:2] == ("fmt", ("L",)):
+                    return e, a, b_
+    return None
+
+
 def _r4(ctx, m):
     fl = m.flow
     env = fl.env
-    # the locals are found by ROLE, not by name: fex = 4th field of the returned ODEContent, lhs = first list zipped into it,
+    # the locals are found by ROLE, not by name: fex = 4th field of the returned ODEContent, lhs = first list paired into it,
     # y = the local list whose entries are 'y[IDX_<alias>]'
     fex_v = lhs_v = None
     for f in fl.facts:
         if f.kind == "return" and f.value and f.value[0] == "meth" and f.value[2] == "ODEContent":
             v = f.value
             fex_v = simp(v[3][3]) if len(v[3]) >= 4 else next((simp(x) for k, x in v[4] if k == "fex"), None)
-    if fex_v and fex_v[0] == "comp" and len(fex_v[3]) == 1:
-        b0 = match(("call", ("global", "zip"), (V("a"), V("b")), ()), fex_v[3][0][1])
-        if b0:
-            lhs_v = b0["a"]
+    pr = _paired_rows(fex_v)
+    if pr:
+        lhs_v = pr[1]
     yv = None
     for nm, val in env.items():
-        pm0 = prefix_map(simp(val)) if val else None
+        if not val:
+            continue
+        base_l = _list_with_tail(val)[0]
+        pm0 = prefix_map(base_l) if base_l[0] in ("comp", "copy", "appended", "phi") else None
         if pm0 and pm0[1] == Y(pm0[0]):
             yv = val
-    pm = prefix_map(simp(yv)) if yv else None
-    if not pm:
-        ctx.unrec("R4", "y", (FILE, m.func.lineno), "abundance symbol list `y` not reconstructible")
-    else:
+    for what, lv, SYM, tail, expected in (("y", yv, Y, "y[IDX_TGAS]", "[f'y[IDX_{x.alias}]' for x in netinfo.species]"),
+                                        ("lhs", lhs_v, YDOT, "ydot[IDX_TGAS]", "[f'ydot[IDX_{x.alias}]' for x in netinfo.species]")):
+        if lv is None:
+            ctx.unrec("R4", what, (FILE, m.func.lineno), f"`{what}` not reconstructible" if what == "lhs" else "abundance symbol list `y` not reconstructible")
+            continue
+        L, cond, x = _list_with_tail(lv)
+        pm = prefix_map(L) if L[0] in ("comp", "copy", "appended", "phi") else None
+        if not pm:
+            ctx.unrec("R4", what, (FILE, m.func.lineno), f"`{what}` not reconstructible" if what == "lhs" else "abundance symbol list `y` not reconstructible")
+            continue
         bv, body, base, ifs = pm
-        ctx.check(base == m.SPEC and not ifs and body == Y(bv), "R4", "y-binding", (FILE, m.func.lineno),
-                  "y[i] = 'y[IDX_<alias of species[i]>]' over the unfiltered species list",
-                  expected="[f'y[IDX_{x.alias}]' for x in netinfo.species]", found=show(simp(yv))[:160])
-    lv = lhs_v
-    pm = prefix_map(simp(lv)) if lv else None
-    if not pm:
-        ctx.unrec("R4", "lhs", (FILE, m.func.lineno), "`lhs` not reconstructible")
-    else:
-        bv, body, base, ifs = pm
-        ctx.check(base == m.SPEC and not ifs and body == YDOT(bv), "R4", "lhs-binding", (FILE, m.func.lineno),
-                  "lhs[i] = 'ydot[IDX_<alias of species[i]>]' over the unfiltered species list",
-                  expected="[f'ydot[IDX_{x.alias}]' for x in netinfo.species]", found=show(simp(lv))[:160])
+        ctx.check(base == m.SPEC and not ifs and body == SYM(bv), "R4", f"{what}-binding", (FILE, m.func.lineno),
+                  f"{what}[i] = '{tail.split('[')[0]}[IDX_<alias of species[i]>]' over the unfiltered species list",
+                  expected=expected, found=show(simp(lv))[:160])
         # thermal tail
-        v = simp(lv)
-        tail_ok = v[0] == "phi" and m.is_has_thermal(v[1]) and v[2][0] == "appended" and v[2][2] == ("const", "ydot[IDX_TGAS]")
-        ctx.check(tail_ok, "R4", "lhs-thermal", (FILE, m.func.lineno),
-                  "lhs gets 'ydot[IDX_TGAS]' appended exactly when has_thermal", found=show(v)[:160])
-    yv_s = simp(yv) if yv else None
-    if yv_s:
-        tail_ok = yv_s[0] == "phi" and m.is_has_thermal(yv_s[1]) and yv_s[2][0] == "appended" and yv_s[2][2] == ("const", "y[IDX_TGAS]")
-        ctx.check(tail_ok, "R4", "y-thermal", (FILE, m.func.lineno),
-                  "y gets 'y[IDX_TGAS]' appended exactly when has_thermal", found=show(yv_s)[:160])
+        if cond is None:
+            ctx.unrec("R4", f"{what}-thermal", (FILE, m.func.lineno), f"how `{what}` gets its temperature entry is not understood: {show(simp(lv))[:120]}")
+        else:
+            ctx.check(m.is_has_thermal(cond) and x == ("const", tail), "R4", f"{what}-thermal", (FILE, m.func.lineno),
+                      f"{what} gets '{tail}' appended exactly when has_thermal", found=show(simp(lv))[:160])
+    lv = lhs_v
     fv = fex_v
-    ok = False
-    if fv and fv[0] == "comp" and len(fv[3]) == 1:
-        tg, it, ifs = fv[3][0]
-        b = match(("call", ("global", "zip"), (V("a"), V("b")), ()), it)
-        if b and not ifs and tg[0] == "tuple" and len(tg[1]) == 2:
-            l, r = tg[1]
-            elt = fv[2]
-            want = ("fstr", (("fmt", l, None, -1), ("const", " = "), ("fmt", r, None, -1), ("const", ";")))
-            ok = elt == want and b["b"] == m.RHS and (b["a"] == simp(lv) or b["a"] == lv)
-    ctx.check(ok, "R4", "fex-zip", (FILE, m.func.lineno),
-              "fex = [f'{l} = {r};' for l, r in zip(lhs, rhs)] pairs row i of lhs with row i of rhs",
-              found=show(fv)[:200] if fv else None)
+    if fv is not None and pr is None:
+        ctx.unrec("R4", "fex-zip", (FILE, m.func.lineno), f"how the statements pair lhs with rhs is not understood: {show(fv)[:160]}")
+    else:
+        ok = False
+        if pr:
+            elt, a, b = pr
+            want = ("fstr", (("fmt", ("L",), None, -1), ("const", " = "), ("fmt", ("R",), None, -1), ("const", ";")))
+            ok = elt == want and b == m.RHS
+        ctx.check(ok, "R4", "fex-zip", (FILE, m.func.lineno),
+                  "fex = [f'{l} = {r};' for l, r in zip(lhs, rhs)] pairs row i of lhs with row i of rhs",
+                  found=show(fv)[:200] if fv else None)
     # fex is what ODEContent receives
     rets = [f for f in fl.facts if f.kind == "return"]
     okret = False
@@ -243,9 +288,15 @@ def _r4(ctx, m):
     txt = ctx.tree.read(rel)
     ctx.saw(rel)
     import re
-    mt = re.search(r"#define\s+IDX_TGAS\s+(\S+)", txt)
-    ctx.check(bool(mt) and mt.group(1) == "NSPECIES", "R4", "IDX_TGAS", (rel, txt[:mt.start()].count("\n") + 1 if mt else 0),
-              "IDX_TGAS is defined as NSPECIES (row n_spec)", expected="NSPECIES", found=mt.group(1) if mt else None)
+    # what the header prints (sets, value macros and `{{ "text" }}` outputs followed), loops and unknown values as holes
+    flat = "".join(p_[1] if p_[0] == "lit" else "\x00" for p_ in J.printed(ctx.tree, J.flatten(ctx.tree, rel, {}), {}))
+    mt = re.search(r"#[ \t]*define[ \t]+IDX_TGAS[ \t]+([^\s]+)", flat)
+    if not mt or "\x00" in mt.group(1):
+        ctx.unrec("R4", "IDX_TGAS", (rel, 0), "no `#define IDX_TGAS <constant>` found in the macro header")
+    else:
+        val = mt.group(1).strip("()")
+        ctx.check(val == "NSPECIES", "R4", "IDX_TGAS", (rel, flat[:mt.start()].count("\n") + 1),
+                  "IDX_TGAS is defined as NSPECIES (row n_spec)", expected="NSPECIES", found=mt.group(1))
 
 
 def _r7(ctx, m, rhs_sites):
@@ -299,12 +350,50 @@ def _numdens(ctx):
     if not fs:
         ctx.missing("R7", "GetNumDens", (rel, 0), "GetNumDens not found")
         return
-    body = re.sub(r"\s+", "", sk.plain(fs[0].body))
-    ok = "for(inti=0;i<NSPECIES;i++)numdens+=y[i];" in body and "returnnumdens;" in body and "doublenumdens=0.0;" in body
-    ctx.check(ok, "R7", "GetNumDens:species only", (rel, 0),
-              "the particle density in the temperature equation sums y[0..NSPECIES-1]" if ok else
-              "GetNumDens does not sum exactly the NSPECIES abundances: with a thermal process the temperature slot y[NSPECIES] enters the particle density",
-              expected="for (int i = 0; i < NSPECIES; i++) numdens += y[i];", found=body[:120])
+    # parsed as C statements: one accumulator starting at zero, one counting loop over [0, NSPECIES) adding y[i], returned
+    from .. import cstmt as CS
+    key = "GetNumDens:species only"
+    try:
+        tree_ = CS.parse_body(sk.plain(fs[0].body))
+    except CS.CStmtError as ex:
+        ctx.unrec("R7", key, (rel, 0), f"GetNumDens body does not parse: {ex}")
+        tree_ = None
+    if tree_ is not None:
+        stmts = [st for st, _ in CS.walk(tree_) if st[0] not in ("block",)]
+        loops = [st for st in stmts if st[0] == "for"]
+        rets = [st for st in stmts if st[0] == "return"]
+        n = CS.norm
+        verdict, found = None, re.sub(r"\s+", " ", sk.plain(fs[0].body))[:160]
+        if len(loops) != 1 or len(rets) != 1 or any(st[0] in ("if", "while", "dowhile", "try") for st in stmts):
+            verdict = "unrec"
+        else:
+            lp = loops[0]
+            mi = re.fullmatch(r"(?:int|size_t|unsignedint|unsigned)?([A-Za-z_]\w*)=(\w+)", n(lp[1]))
+            iv = mi.group(1) if mi else None
+            mc = re.fullmatch(r"([A-Za-z_]\w*)(<|<=|!=)(\w+)", n(lp[2])) if iv else None
+            step = iv is not None and n(lp[3]) in (f"{iv}++", f"++{iv}", f"{iv}+=1", f"{iv}={iv}+1")
+            body = [st for st, _ in CS.walk(lp[4]) if st[0] == "expr" and st[1]]
+            acc = n(rets[0][1])
+            ma = None
+            if len(body) == 1 and iv:
+                b = n(body[0][1])
+                ma = re.fullmatch(rf"{re.escape(acc)}\+=(.+)", b) or re.fullmatch(rf"{re.escape(acc)}={re.escape(acc)}\+(.+)", b) if re.fullmatch(r"[A-Za-z_]\w*", acc) else None
+            decl = [st for st in stmts if st[0] == "expr" and re.fullmatch(rf"(?:double|realtype|float){re.escape(acc)}=(.+)", n(st[1]))] if ma else []
+            if not (mi and mc and mc.group(1) == iv and step and ma and len(decl) == 1 and len([st for st in stmts if st[0] == "expr" and st[1]]) == 2):
+                verdict = "unrec"
+            else:
+                zero = re.fullmatch(r"0(\.0*)?[fF]?", re.fullmatch(rf"(?:double|realtype|float){re.escape(acc)}=(.+)", n(decl[0][1])).group(1)) is not None
+                bounds = mi.group(2) == "0" and mc.group(2) == "<" and mc.group(3) == "NSPECIES"
+                term = ma.group(1) in (f"y[{iv}]", f"(y[{iv}])")
+                verdict = "ok" if zero and bounds and term else "bad"
+        if verdict == "unrec":
+            ctx.unrec("R7", key, (rel, 0), f"GetNumDens is not one counting loop accumulating into the returned variable: {found}")
+        else:
+            ok = verdict == "ok"
+            ctx.check(ok, "R7", key, (rel, 0),
+                      "the particle density in the temperature equation sums y[0..NSPECIES-1]" if ok else
+                      "GetNumDens does not sum exactly the NSPECIES abundances: with a thermal process the temperature slot y[NSPECIES] enters the particle density",
+                      expected="for (int i = 0; i < NSPECIES; i++) numdens += y[i];", found=found)
     # npar is registered as GetNumDens(y)
     from ..ratemodel import model as ratemodel
     reg = ratemodel(ctx.tree).effective_registry("ThermalProcess")
@@ -333,12 +422,16 @@ def _r6(ctx):
                     if fact.kind == "attrstore" and fact.target in ("reactants", "products", "_reactants", "_products") \
                             and fact.extra.get("obj") == ("param", "self"):
                         n_sites += 1
-                        ok, why = _filtered_create(simp(fact.value))
+                        ok, why = _filtered_create(simp(fact.value), fl)
                         key = f"{ci.name}.{mname}:{fact.target}"
+                        if ok is None:
+                            ctx.unrec("R6", key, (f, fact.line), why + ": " + show(simp(fact.value))[:120])
+                            continue
                         ctx.check(ok, "R6", key, (f, fact.line),
                                   "list built from self._create_species(..) values with falsy (pseudo-element) results filtered out" if ok else why,
                                   found=None if ok else show(simp(fact.value))[:160])
     ctx.floor("R6", "reactant/product assignments", n_sites, 13)
+    species_truthiness(ctx, "R6")
     # _create_species returns None for pseudo-elements
     fn = pkg.method("Component", "_create_species")
     ctx.saw("naunet/component.py", "Component._create_species")
@@ -348,25 +441,38 @@ def _r6(ctx):
     cfl = Flow(fn, "naunet/component.py")
     arg = ("param", fn.args.args[1].arg) if len(fn.args.args) > 1 else None
     PSE = ("cmp", ("In",), (arg, ("meth", ("global", "Species"), "known_pseudoelements", (), ())))
-    rets = [(simp(f.value), f.guards) for f in cfl.facts if f.kind == "return"]
+    def _paths(v, g):
+        """a returned conditional value is one return per arm"""
+        if v[0] in ("phi", "ifexp"):
+            return _paths(v[2], tuple(g) + ((v[1], True),)) + _paths(v[3], tuple(g) + ((v[1], False),))
+        return [(v, tuple(g))]
+    rets = [p_ for f in cfl.facts if f.kind == "return" for p_ in _paths(simp(f.value) if f.value else ("const", None), f.guards)]
     makes = [(v, g) for v, g in rets if v[0] == "call" and v[1] == ("global", "Species")]
+    if not makes:
+        ctx.unrec("R6", "Component._create_species:pseudo-filter", ("naunet/component.py", fn.lineno),
+                  "no path of _create_species returns Species(<name>) directly: where the species is constructed is not understood")
+        makes = None
     ok = bool(makes) and all(v[2] and v[2][0] == arg for v, g in makes) and all(not guards_satisfiable(g, [(PSE, True)]) for v, g in makes)
     # on a pseudo-element path (name is a non-empty str in the list) only None can be returned
     for v, g in rets:
         if guards_satisfiable(g, [(PSE, True), (arg, True), (("call", ("global", "isinstance"), (arg, ("global", "Species")), ()), False)]) and v != ("const", None):
             ok = False
-    ctx.check(ok, "R6", "Component._create_species:pseudo-filter", ("naunet/component.py", fn.lineno),
-              "Species(..) is constructed only for names not in Species.known_pseudoelements(); otherwise None is returned")
+    if makes is not None:
+        ctx.check(ok, "R6", "Component._create_species:pseudo-filter", ("naunet/component.py", fn.lineno),
+                  "Species(..) is constructed only for names not in Species.known_pseudoelements(); otherwise None is returned")
     # the list consulted is the CONFIGURED pseudo-element list whenever any list was configured
     kp = pkg.method("Species", "known_pseudoelements")
     ctx.saw("naunet/species.py", "Species.known_pseudoelements")
     kfl = Flow(kp, "naunet/species.py")
     CLS = ("param", "cls")
     KE, KP, DEF = ("attr", CLS, "_known_elements"), ("attr", CLS, "_known_pseudoelements"), ("attr", CLS, "default_pseudoelements")
-    rets = [(simp(f.value), tuple((simp(g), p) for g, p in f.guards)) for f in kfl.facts if f.kind == "return"]
+    rets = [(v, tuple((simp(g), p) for g, p in gs)) for f in kfl.facts if f.kind == "return"
+            for v, gs in _paths(simp(f.value) if f.value else ("const", None), f.guards)]
 
     # decide by truth table over (elements configured?, pseudo-elements configured?), whatever the spelling of the conditions
     def ev(c, env):
+        from ..valueflow import _unbool
+        c = _unbool(c)
         if c in env:
             return env[c]
         if c[0] == "unop" and c[1] == "Not":
@@ -394,21 +500,75 @@ def _r6(ctx):
               found="; ".join(f"{show(v)[:40]} if {[('' if p else 'not ') + show(g)[:60] for g, p in gs]}" for v, gs in rets))
 
 
-def _filtered_create(v):
-    """[] | IfExp of such | one `self._create_species(..)` per element of a sequence, kept only when truthy."""
-    if v[0] == "ifexp":
-        a, wa = _filtered_create(v[2])
-        b, wb = _filtered_create(v[3])
-        return a and b, wa or wb
+def species_truthiness(ctx, rule):
+    """The `if self._create_species(x)` filters are meant to drop None only: every Species instance must be truthy.  Python takes the
+    truth of an object from __bool__, else from __len__ != 0 -- a Species class (or base) that defines either can make a real
+    species (the electron: no elements) falsy, and the filters silently drop it from the reactant / product lists (rule shared
+    with C04)."""
+    import ast
+    from ..pymodel import package
+    pkg = package(ctx.tree)
+    ci = pkg.cls("Species")
+    ctx.saw(ci.file, "Species")
+    hit = None
+    for c in pkg.mro("Species"):
+        k = pkg.classes.get(c)
+        if not k:
+            continue
+        for special in ("__bool__", "__len__"):
+            if special in k.methods and hit is None:
+                fn = k.methods[special]
+                rets = [r.value for r in ast.walk(fn) if isinstance(r, ast.Return)]
+                always = special == "__bool__" and rets and all(isinstance(v, ast.Constant) and v.value is True for v in rets)
+                if not always:
+                    hit = (c, special, fn)
+        if hit or "__bool__" in k.methods:
+            break
+    ctx.check(hit is None, rule, "Species:always-truthy", (ci.file, hit[2].lineno if hit else ci.node.lineno),
+              "Species defines neither __bool__ nor __len__: every instance is truthy, the created-species filters drop None only" if hit is None else
+              f"{hit[0]}.{hit[1]} makes the truth value of a species depend on its content: a species for which it is 0/False (the electron has no "
+              "elements) is dropped by every `if self._create_species(x)` filter, its reactions lose a reactant/product and charge is not conserved",
+              expected="no __bool__ / __len__ on Species (or __bool__ returning True)", found=f"def {hit[1]}" if hit else None)
+
+
+def _filtered_create(v, fl=None):
+    """[] | IfExp of such | one `self._create_species(..)` per element of a sequence, kept only when truthy -- written as a
+    comprehension or as a local list filled by guarded appends.  -> (True | False | None (shape not understood), why)"""
+    from ..valueflow import split_guard
+
+    def is_create(x):
+        return x[0] == "meth" and x[1] == ("param", "self") and x[2] == "_create_species"
+
+    if v[0] in ("ifexp", "phi"):
+        a, wa = _filtered_create(v[2], fl)
+        b, wb = _filtered_create(v[3], fl)
+        return (None if a is None or b is None else a and b), wa or wb
     if v == ("list", ()):
+        return True, ""
+    if v[0] == "acc" and fl is not None:
+        # a local list: created empty, then only appended to; every appended value is a created species guarded by its own truth
+        facts = [f for f in fl.facts if f.target == v[1]]
+        inits = [f for f in facts if f.kind == "init"]
+        apps = [f for f in facts if f.kind == "append"]
+        if len(inits) != 1 or simp(inits[0].value) != ("list", ()) or len(inits) + len(apps) != len(facts) or not apps:
+            return None, f"the list `{v[1]}` is not `[]` followed by appends only"
+        for f in apps:
+            val = simp(f.value)
+            if not is_create(val):
+                return False, "elements are not produced by self._create_species(..)"
+            conds = [g for gd in f.guards for g in split_guard((simp(gd[0]), gd[1]))]
+            if (val, True) not in conds:
+                return False, "no truthiness filter on the created species: a marker token would enter the list as None"
         return True, ""
     m = as_map(v) if v[0] in ("comp", "copy") else None
     if m is None:
-        return False, f"reactant/product list assigned from an unrecognised expression"
+        return None, f"reactant/product list assigned from an unrecognised expression"
     bv, body, base, ifs = m
-    if not (body[0] == "meth" and body[1] == ("param", "self") and body[2] == "_create_species"):
+    if not is_create(body):
         return False, "elements are not produced by self._create_species(..)"
-    if body not in ifs:
+    # `if a and b` is `if a if b`
+    conds = [g for c in ifs for g in split_guard((simp(c), True))]
+    if (body, True) not in conds:
         return False, "no truthiness filter on the created species: a marker token would enter the list as None"
     return True, ""
 
@@ -425,6 +585,14 @@ def rhs_writers(ctx, rule):
 WS_FILTERS = {"stmwrap"}
 
 
+def _subterms(e):
+    yield e
+    if isinstance(e, tuple):
+        for x in e:
+            if isinstance(x, tuple):
+                yield from _subterms(x)
+
+
 def _r8(ctx):
     n = 0
     for label, rel, cfg, fname in CONFIGS:
@@ -434,25 +602,48 @@ def _r8(ctx):
         if not sk.func(fname):
             ctx.missing("R8", f"{label}:{fname}", (rel, 0), f"function {fname} not found in the specialised template")
             continue
-        loops = [(it, off) for it, off in sk.items_in(fname) if it[0] == "for" and J.path(J.unfilter(it[2])[0]) == "ode.fex"]
+        FEXSEQ = ("attr", ("name", "ode"), "fex")
+        loops = [(it, off) for it, off in sk.items_in(fname) if it[0] == "for" and any(x == FEXSEQ for x in _subterms(it[2]))]
         key = f"{label}:{fname}:for ode.fex"
+        if not loops and any(x == FEXSEQ for it_, off in sk.items_in(fname) for x in _subterms(it_)):
+            ctx.unrec("R8", key, (rel, 0), f"{fname} uses ode.fex, but not in a `for eq in ode.fex` loop: how the equations are pasted is not understood")
+            continue
         if len(loops) != 1:
             ctx.bad("R8", key, (rel, loops[0][0][5] if loops else 0),
                     f"{fname} pastes ode.fex {len(loops)} times, expected exactly once")
             continue
         it = loops[0][0]
         base, fs = J.unfilter(it[2])
-        if fs or it[7] is not None:
+        if (fs and base == FEXSEQ) or it[7] is not None:
             ctx.bad("R8", key, (rel, it[5]), f"the loop over ode.fex is filtered/sliced: {J.show(it[2])}" + (f" if {J.show(it[7])}" if it[7] else ""),
                     expected="for eq in ode.fex", found=J.show(it[2]))
             continue
-        if it[2][0] != "attr":
+        if it[2][0] == "item" and it[2][1] == FEXSEQ:
             ctx.bad("R8", key, (rel, it[5]), f"the loop iterates {J.show(it[2])}, not ode.fex itself")
             continue
+        if it[2] != FEXSEQ:
+            ctx.unrec("R8", key, (rel, it[5]), f"the loop iterates {J.show(it[2])}: how it visits ode.fex is not understood")
+            continue
         var = it[1]
-        outs = [b for b in it[3] if b[0] == "out"]
-        others = [b for b in it[3] if b[0] not in ("out", "text")]
-        texts = "".join(b[1] for b in it[3] if b[0] == "text").strip()
+        # `{% set v = eq | filter %}` then `{{ v | .. }}`, and one-expression macros used as values, are the same chain of filters
+        sets, body, opaque = {}, [], set()
+        for b in it[3]:
+            if b[0] == "set" and b[1][0] == "name":
+                sets[b[1][1]] = J.subst(J.inline_macros(ctx.tree, b[-1], b[2]), sets)
+                opaque.discard(b[1][1])
+            elif b[0] == "out":
+                body.append(("out", J.subst(J.inline_macros(ctx.tree, b[-1], b[1]), sets)) + tuple(b[2:]))
+            elif b[0] in ("set", "setblock"):
+                # a binding the analysis does not follow (tuple / namespace target, captured block): it prints nothing itself
+                opaque |= {x[1] for x in ([b[1]] + list(b[1][1] if b[1][0] in ("tuple", "list") else ())) if x[0] == "name"}
+            else:
+                body.append(b)
+        outs = [b for b in body if b[0] == "out"]
+        others = [b for b in body if b[0] not in ("out", "text")]
+        if len(outs) == 1 and not others and any(isinstance(x, tuple) and x[:1] == ("name",) and x[1] in opaque for x in _subterms(outs[0][1])):
+            ctx.unrec("R8", key, (rel, it[5]), f"the pasted value {J.show(outs[0][1])} is bound by a `set` form the analysis does not follow")
+            continue
+        texts = "".join(b[1] for b in body if b[0] == "text").strip()
         if len(outs) != 1 or others or texts:
             ctx.bad("R8", key, (rel, it[5]), "loop body must output the equation and nothing else",
                     found=f"{len(outs)} outputs, {len(others)} control nodes, text {texts[:40]!r}")
@@ -496,11 +687,38 @@ def _r8(ctx):
     pkg = package(ctx.tree)
     fn = pkg.func("naunet/utilities.py", "_stmwrap")
     ctx.saw("naunet/utilities.py", "_stmwrap")
-    calls = [c for c in ast.walk(fn) if isinstance(c, ast.Call) and ast.unparse(c.func) in ("wrap", "fill", "textwrap.wrap", "textwrap.fill")]
-    ok = bool(calls) and all(any(k.arg == "break_long_words" and isinstance(k.value, ast.Constant) and k.value.value is False for k in c.keywords)
-                             and not any(k.arg == "break_on_hyphens" and isinstance(k.value, ast.Constant) and k.value.value is True for k in c.keywords)
-                             for c in calls)
-    ctx.check(ok, "R8", "_stmwrap:break_long_words=False", ("naunet/utilities.py", fn.lineno),
+    # every way of asking textwrap to split the text (wrap / fill / an explicit TextWrapper) must forbid breaking inside a token;
+    # the option is recognised wherever it is given: keyword of the call or attribute assignment on the wrapper object
+    WRAPPERS = ("wrap", "fill", "TextWrapper", "textwrap.wrap", "textwrap.fill", "textwrap.TextWrapper")
+    calls = [c for c in ast.walk(fn) if isinstance(c, ast.Call) and ast.unparse(c.func) in WRAPPERS]
+
+    def const_kw(c, name):
+        """value of a constant keyword, `...` when given but not constant, None when absent"""
+        for k in c.keywords:
+            if k.arg == name:
+                return k.value.value if isinstance(k.value, ast.Constant) else ...
+            if k.arg is None:
+                return ...
+        return None
+    attr_sets = [(t.attr, st.value) for st in ast.walk(fn) if isinstance(st, ast.Assign) for t in st.targets
+                 if isinstance(t, ast.Attribute) and t.attr in ("break_long_words", "break_on_hyphens")]
+    if not calls:
+        ctx.unrec("R8", "_stmwrap:break_long_words=False", ("naunet/utilities.py", fn.lineno),
+                  "no textwrap.wrap / fill / TextWrapper call found in _stmwrap: how statements are wrapped is not understood")
+        return
+    blw = [const_kw(c, "break_long_words") for c in calls]
+    boh = [const_kw(c, "break_on_hyphens") for c in calls]
+    later = {a: [v.value if isinstance(v, ast.Constant) else ... for a2, v in attr_sets if a2 == a] for a in ("break_long_words", "break_on_hyphens")}
+    if any(v is ... for v in blw + boh + later["break_long_words"] + later["break_on_hyphens"]):
+        ctx.unrec("R8", "_stmwrap:break_long_words=False", ("naunet/utilities.py", fn.lineno),
+                  "the word-breaking options of the wrapper are not constants")
+        return
+    # the option holds when every call gives False (or the wrapper object is set to False afterwards and never to anything else)
+    ok_blw = (all(v is False for v in blw) and all(v is False for v in later["break_long_words"])) or \
+        (bool(later["break_long_words"]) and all(v is False for v in later["break_long_words"]) and all(v in (False, None) for v in blw)
+         and all(ast.unparse(c.func).endswith("TextWrapper") for c in calls))
+    ok_boh = not any(v is True for v in boh + later["break_on_hyphens"])
+    ctx.check(ok_blw and ok_boh, "R8", "_stmwrap:break_long_words=False", ("naunet/utilities.py", fn.lineno),
               "line wrapping breaks at whitespace only (break_long_words=False)")
 
 
@@ -522,6 +740,19 @@ MUTANTS = [
     {"name": "fex-slice", "file": TEMPLATES["cvode"], "old": "    {% for eq in ode.fex -%}\n        {{ eq | stmwrap(80, 8) }}", "new": "    {% for eq in ode.fex[1:] -%}\n        {{ eq | stmwrap(80, 8) }}", "rules": ["R8"]},
     {"name": "kernel-replace-swapped", "file": TEMPLATES["cvode"], "old": 'replace("y[IDX", "y_cur[IDX") | stmwrap(80, 12)', "new": 'replace("y_cur[IDX", "y[IDX") | stmwrap(80, 12)', "rules": ["R8"]},
     {"name": "stmwrap-breaks-words", "file": "naunet/utilities.py", "old": "break_long_words=False", "new": "break_long_words=True", "rules": ["R8"]},
+    {"name": "textwrapper-breaks-words", "file": "naunet/utilities.py", "old": "wrappedlist = wrap(text, width - indent, break_long_words=False)", "new": "import textwrap\n    wrappedlist = textwrap.TextWrapper(width=width - indent).wrap(text)", "rules": ["R8"]},
+    {"name": "kernel-set-drops-rebase", "file": TEMPLATES["cvode"], "old": '            {{ eq | replace("ydot[IDX", "ydot[yistart + IDX") | replace("y[IDX", "y_cur[IDX") | stmwrap(80, 12) }}', "new": '            {% set dev = eq | replace("ydot[IDX", "ydot[yistart + IDX") -%}\n            {{ dev | stmwrap(80, 12) }}', "rules": ["R8"]},
+    {"name": "reactants-append-loop-unfiltered", "file": 'naunet/reactions/reaction.py', "old": '        self.reactants = [\n            self._create_species(r.strip())\n            for r in rps[0:3]\n            if self._create_species(r.strip())\n        ]\n', "new": '        found = []\n        for col in rps[0:3]:\n            nm = col.strip()\n            found.append(self._create_species(nm))\n        self.reactants = found\n', "rules": ["R6"]},
+    {"name": "rhs-init-comprehension-ones", "file": T, "old": '        rhs = ["0.0"] * n_eqns\n', "new": '        rhs = ["1.0" for _ in range(n_eqns)]\n', "rules": ["R1"]},
+    {"name": "lhs-tail-heating-only", "file": T, "old": '        lhs = [f"ydot[IDX_{x.alias}]" for x in species]\n        if has_thermal:\n            lhs.append("ydot[IDX_TGAS]")\n', "new": '        lhs = [f"ydot[IDX_{x.alias}]" for x in species] + (["ydot[IDX_TGAS]"] if netinfo.heating else [])\n        if has_thermal:\n', "rules": ["R4"]},
+    {"name": "fex-by-index-swapped", "file": T, "old": 'fex = [f"{l} = {r};" for l, r in zip(lhs, rhs)]', "new": 'fex = [f"{rhs[i]} = {lhs[i]};" for i in range(len(rhs))]', "rules": ["R4"]},
+    {"name": "loss-assign-plus-sign", "file": T, "old": 'rhs[specidx] += f" - {rate_sym}[{rl}]*{rsym_mul}"', "new": 'rhs[specidx] = rhs[specidx] + f" + {rate_sym}[{rl}]*{rsym_mul}"', "rules": ["R2"]},
+    {"name": "has-thermal-heating-only", "file": T, "old": "has_thermal = True if netinfo.heating or netinfo.cooling else False", "new": "has_thermal = len(netinfo.heating) > 0", "rules": ["R1", "R4", "R7"]},
+    {"name": "numdens-includes-temperature", "file": 'naunet/templates/base/cpp/src/naunet_physics.cpp.j2', "old": '    double numdens = 0.0;\n\n    for (int i = 0; i < NSPECIES; i++) numdens += y[i];\n    return numdens;\n', "new": '    double numdens = 0.0;\n\n    for (int i = 0; i < NEQUATIONS; i++) numdens += y[i];\n    return numdens;\n', "rules": ["R7"]},
+    {"name": "reaction-loop-by-index-shifted-rate", "edits": [
+        {"file": T, "old": 'for rl, react in enumerate(tqdm(reactions, desc="Preparing ODE...")):', "new": 'for rl in range(len(reactions)):\n            react = reactions[rl]'},
+        {"file": T, "old": 'rhs[specidx] += f" - {rate_sym}[{rl}]*{rsym_mul}"', "new": 'rhs[specidx] += f" - {rate_sym}[{rl - 1}]*{rsym_mul}"'}], "rules": ["R2"]},
+    {"name": "species-len-makes-electron-falsy", "file": "naunet/species.py", "old": "    def __hash__(self) -> int:\n", "new": "    def __len__(self) -> int:\n        return len(self.element_count)\n\n    def __hash__(self) -> int:\n", "rules": ["R6"]},
     {"name": "lhs-sorted", "file": T, "old": 'lhs = [f"ydot[IDX_{x.alias}]" for x in species]', "new": 'lhs = [f"ydot[IDX_{x.alias}]" for x in sorted(species)]', "rules": ["R4"]},
     {"name": "create-species-no-filter", "file": "naunet/reactions/reaction.py", "old": "[self._create_species(r) for r in reactants if self._create_species(r)]", "new": "[self._create_species(r) for r in reactants]", "rules": ["R6"]},
     {"name": "tgas-macro", "file": "naunet/templates/base/cpp/include/naunet_macros.h.j2", "old": "#define IDX_TGAS NSPECIES", "new": "#define IDX_TGAS NEQUATIONS", "rules": ["R4"]},
@@ -536,5 +767,20 @@ BENIGN = [
     {"name": "recompute-join", "file": T, "old": 'rhs[specidx] += f" + {rate_sym}[{rl}]*{rsym_mul}"', "new": 'rhs[specidx] += f" + {rate_sym}[{rl}]*{\'*\'.join(rsym)}"'},
     {"name": "concat-instead-of-fstring", "file": T, "old": 'rhs[specidx] += f" - {rate_sym}[{rl}]*{rsym_mul}"', "new": 'rhs[specidx] += " - " + f"{rate_sym}[{rl}]" + "*" + rsym_mul'},
     {"name": "bool-has-thermal", "file": T, "old": "has_thermal = True if netinfo.heating or netinfo.cooling else False", "new": "has_thermal = bool(netinfo.heating or netinfo.cooling)"},
+    {"name": "textwrapper-object", "file": "naunet/utilities.py", "old": "wrappedlist = wrap(text, width - indent, break_long_words=False)", "new": "import textwrap\n    wrappedlist = textwrap.TextWrapper(width=width - indent, break_long_words=False).wrap(text)"},
+    {"name": "kernel-filters-via-set", "file": TEMPLATES["cvode"], "old": '            {{ eq | replace("ydot[IDX", "ydot[yistart + IDX") | replace("y[IDX", "y_cur[IDX") | stmwrap(80, 12) }}', "new": '            {% set dev = eq | replace("ydot[IDX", "ydot[yistart + IDX") | replace("y[IDX", "y_cur[IDX") -%}\n            {{ dev | stmwrap(80, 12) }}'},
+    {"name": "kernel-filters-via-macro", "edits": [
+        {"file": TEMPLATES["cvode"], "old": "#include <math.h>\n", "new": '{% macro rebased(t) %}{{ t | replace("ydot[IDX", "ydot[yistart + IDX") | replace("y[IDX", "y_cur[IDX") }}{% endmacro %}\n#include <math.h>\n', "count": 1},
+        {"file": TEMPLATES["cvode"], "old": '            {{ eq | replace("ydot[IDX", "ydot[yistart + IDX") | replace("y[IDX", "y_cur[IDX") | stmwrap(80, 12) }}', "new": '            {{ rebased(eq) | stmwrap(80, 12) }}'}]},
+    {"name": "reactants-append-loop", "file": 'naunet/reactions/reaction.py', "old": '        self.reactants = [\n            self._create_species(r.strip())\n            for r in rps[0:3]\n            if self._create_species(r.strip())\n        ]\n', "new": '        found = []\n        for col in rps[0:3]:\n            nm = col.strip()\n            if self._create_species(nm):\n                found.append(self._create_species(nm))\n        self.reactants = found\n'},
+    {"name": "reactants-filter-conjunction", "file": 'naunet/reactions/reaction.py', "old": '        self.reactants = [\n            self._create_species(r.strip())\n            for r in rps[0:3]\n            if self._create_species(r.strip())\n        ]\n', "new": '        self.reactants = [\n            self._create_species(r.strip())\n            for r in rps[0:3]\n            if r.strip() != "" and self._create_species(r.strip())\n        ]\n'},
+    {"name": "rhs-init-comprehension", "file": T, "old": '        rhs = ["0.0"] * n_eqns\n', "new": '        rhs = ["0.0" for _ in range(n_eqns)]\n'},
+    {"name": "lhs-tail-concatenated", "file": T, "old": '        lhs = [f"ydot[IDX_{x.alias}]" for x in species]\n        if has_thermal:\n            lhs.append("ydot[IDX_TGAS]")\n', "new": '        lhs = [f"ydot[IDX_{x.alias}]" for x in species] + (["ydot[IDX_TGAS]"] if has_thermal else [])\n        if has_thermal:\n'},
+    {"name": "fex-by-index", "file": T, "old": 'fex = [f"{l} = {r};" for l, r in zip(lhs, rhs)]', "new": 'fex = [f"{lhs[i]} = {rhs[i]};" for i in range(len(rhs))]'},
+    {"name": "loss-assign-plus", "file": T, "old": 'rhs[specidx] += f" - {rate_sym}[{rl}]*{rsym_mul}"', "new": 'rhs[specidx] = rhs[specidx] + f" - {rate_sym}[{rl}]*{rsym_mul}"'},
+    {"name": "has-thermal-by-length", "file": T, "old": "has_thermal = True if netinfo.heating or netinfo.cooling else False", "new": "has_thermal = len(netinfo.heating) + len(netinfo.cooling) > 0"},
+    {"name": "n-eqns-int-flag", "file": T, "old": "n_eqns = max(n_spec + has_thermal, 1)", "new": "n_eqns = max(1, n_spec + int(has_thermal))"},
+    {"name": "numdens-braced-loop", "file": 'naunet/templates/base/cpp/src/naunet_physics.cpp.j2', "old": '    double numdens = 0.0;\n\n    for (int i = 0; i < NSPECIES; i++) numdens += y[i];\n    return numdens;\n', "new": '    double total = 0.;\n    for (int k = 0; k < NSPECIES; ++k) {\n        total = total + y[k];\n    }\n    return total;\n'},
+    {"name": "reaction-loop-by-index", "file": T, "old": 'for rl, react in enumerate(tqdm(reactions, desc="Preparing ODE...")):', "new": 'for rl in range(len(reactions)):\n            react = reactions[rl]'},
     {"name": "template-reindent", "file": TEMPLATES["cvode"], "old": "    {% for eq in ode.fex -%}\n        {{ eq | stmwrap(80, 8) }}", "new": "    {% for eq in ode.fex -%}\n      {{ eq|stmwrap(80, 6) }}"},
 ]
